@@ -454,6 +454,36 @@ def H9(op_a, op_b, hook):
     return build
 
 
+def H10(variant):
+    """unflatten-family operations through ONE shared treespec whose custom nodes come after an already finished sibling
+    (so a half-built result sits on the engine's work stack while the thread is parked in the custom unflatten function);
+    every thread feeds its own, distinctly labelled leaves."""
+    def build(ex):
+        w = World()
+        CUR[0] = None
+        w.register(w.CX, w.fl, w.un)
+        tree = [Leaf(0), w.CX([Leaf(1), (Leaf(2),)], w.Meta(1)), {w.Key('k'): w.CX([Leaf(3)], w.Meta(2))}, Leaf(4)]
+        spec = optree.tree_structure(tree, namespace=w.ns)
+
+        def lazy(base):
+            for i in range(5):
+                P('leaves-iterator')
+                yield Leaf(base + i)
+
+        ops = {
+            'unflatten-a': lambda: spec.unflatten([Leaf(10 + i) for i in range(5)]),
+            'unflatten-b': lambda: spec.unflatten([Leaf(20 + i) for i in range(5)]),
+            'unflatten-lazy': lambda: optree.tree_unflatten(spec, lazy(30)),
+            'traverse': lambda: spec.traverse([Leaf(40 + i) for i in range(5)], None, lambda x: (P('f_leaf'), x)[1]),
+            'walk': lambda: spec.walk([Leaf(50 + i) for i in range(5)], lambda t, d, ch: (P('f_node'), (t.__name__, tuple(ch)))[1]),
+            'map-shared-tree': lambda: optree.tree_map(lambda x: (P('mapped-f'), x)[1], tree, namespace=w.ns),
+            'flatten_up_to': lambda: spec.flatten_up_to(tree),
+        }
+        CUR[0] = ex
+        return [ops[v] for v in variant], {'world': w}
+    return build
+
+
 def H8():
     """map / unflatten whose custom unflatten re-enters optree, from two threads."""
     def build(ex):
@@ -494,6 +524,12 @@ def harnesses(tier):
         ('H5:flatten|swap', H5('swap'), None),
         ('H6:first-classification', H6(), None),
         ('H8:reentrant-unflatten', H8(), 2),
+        ('H10:unflatten-a|unflatten-b', H10(('unflatten-a', 'unflatten-b')), 2),
+        ('H10:unflatten-a|unflatten-lazy', H10(('unflatten-a', 'unflatten-lazy')), 2),
+        ('H10:unflatten-a|traverse', H10(('unflatten-a', 'traverse')), 2),
+        ('H10:walk|unflatten-b', H10(('walk', 'unflatten-b')), 2),
+        ('H10:map-shared-tree|unflatten-a', H10(('map-shared-tree', 'unflatten-a')), 2),
+        ('H10:flatten_up_to|unflatten-a', H10(('flatten_up_to', 'unflatten-a')), 2),
     ]
     for hook in ('warning', 'class-attr', 'class-repr', 'dup-repr'):
         for other in ('flatten', 'get', 'register-other', 'unregister-cx'):
@@ -508,6 +544,7 @@ def harnesses(tier):
             ('H2:shared-iter-3', H2(3), 2),
             ('H3:hash|repr|eq', H3(('hash', 'repr', 'eq')), 2),
             ('H4:register x3', H4(3), None),
+            ('H10:unflatten-a|unflatten-b|unflatten-lazy', H10(('unflatten-a', 'unflatten-b', 'unflatten-lazy')), 2),
         ]
         hs = [(n, b, None if bd == 2 and n.count('|') == 1 else bd) for n, b, bd in hs]
     return hs
